@@ -202,7 +202,7 @@ def run_case(case, rec, mon=None):
             monitor.detach_all()
         return
     fl, fs = comp.frame_length, comp.frame_shift
-    if fl < 1 or fs < 1 or fl > 400:
+    if fl < 1 or fs < 1 or (fl > 400 and not case.get("realistic")):
         rec.count("configurations_skipped_geometry")
         if own:
             monitor.detach_all()
@@ -242,7 +242,10 @@ def make_cfg(seed, idx):
 def plan(tier, seed):
     n = 4000 if tier == "quick" else 60000
     nsh = 16
-    return [{"a": a, "b": b, "seed": seed} for a, b in split(n, nsh)]
+    specs = [{"a": a, "b": b, "seed": seed} for a, b in split(n, nsh)]
+    for j, cfg in enumerate(c for c in gen.realistic_cfgs() if c["name"] == "stft"):
+        specs.append({"realistic": cfg, "idx": 10 ** 6 + j, "seed": seed, "n_signals": 3 if tier == "quick" else 12})
+    return specs
 
 
 def run_shard(spec, rec):
@@ -252,6 +255,12 @@ def run_shard(spec, rec):
         return suite.run(__name__.rsplit(".", 1)[-1], spec, rec)
     mon = StftMonitor(rec)
     mon.attach()
+    if "realistic" in spec:
+        rec.count("realistic_configurations")
+        run_case({"idx": spec["idx"], "seed": spec["seed"], "cfg": spec["realistic"], "n_signals": spec["n_signals"], "realistic": True}, rec, mon)
+        monitor.report(rec)
+        monitor.detach_all()
+        return
     for i in range(spec["a"], spec["b"]):
         run_case({"idx": i, "seed": spec["seed"], "cfg": make_cfg(spec["seed"], i)}, rec, mon)
     monitor.report(rec)
